@@ -19,7 +19,7 @@ from . import c09_eval as E
 from . import c09_gen as G
 
 MANIFEST = {
-    "text": "Coq theorems about an executable model of stix2.equivalence.pattern (66 theorems in Props/C09.v + 21 in Props/C09Src.v, all closed under the global "
+    "text": "Coq theorems about an executable model of stix2.equivalence.pattern (66 theorems in Props/C09.v + 23 in Props/C09Src.v, all closed under the global "
             "context): the comparators are lawful total preorders, hence the reported relation is reflexive, symmetric and "
             "transitive and find_equivalent_patterns is the filter of the pairwise test; every pass of the normaliser "
             "(flatten, order/dedupe, absorption with its deletion loop, DNF with root-type pruning, special values, settle) "
@@ -51,7 +51,8 @@ MANIFEST = {
             "__is_contained_and consumes the matched operand, the transformers in the simplify / normalise chains and the "
             "flag logic of ChainTransformer / SettleTransformer, the MATCHES and StringConstant guards, the arithmetic of "
             "_mask_bytes (as Gallina functions), hex_cmp (on decoded bytes) / bin_cmp / bool_cmp / list_cmp (lexicographic on the "
-            "sorted members) / generic_cmp / iter_lex_cmp / iter_in, that both DNF transformers transform their new terms again, "
+            "sorted members) / generic_cmp / iter_lex_cmp / iter_in, repeats_cmp / within_cmp (the seconds as they are, no int()) / "
+            "startstop_cmp, that both DNF transformers transform their new terms again, how stix_version reaches the parser, "
             "the bodies of equivalent_patterns / find_equivalent_patterns (every member "
             "examined, no cache); Props/C09Src.v proves for each that the model's function is the one these choices denote "
             "(source_* theorems) and refutes the recognised alternatives; an unrecognised text aborts the translator naming "
@@ -485,9 +486,14 @@ def check(run):
         "find_equivalent_patterns must equal the member-by-member equivalent_patterns filter, no near-duplicate of a "
         "normalising pattern may make the comparison raise, and near-duplicates reported equivalent go through the "
         "independent evaluator (hex / binary constants with leading zero bytes and h'', sets that are sorted prefixes); "
+        "%d families exercising every public way of naming the STIX version (stix_version 2.0 / 2.1 as keyword, "
+        "positionally, by default) with version-specific vocabulary (the 2.1-only keyword EXISTS as a 2.0 property name): no "
+        "raise on a pattern the validator of that version accepts, reflexive, independent of how the version is handed "
+        "over, equivalent_patterns = find_equivalent_patterns pair by pair; WITHIN windows with a fractional number of "
+        "seconds (equal integer parts) around several observations, differing only in the window; "
         "every normal form is also written back as pattern text and compared with the original by "
         "the independent evaluator; a case is non-trivial when the pattern(s) parsed, normalised and contain a "
-        "compound node" % (depth, nrule, nbound, nnear))
+        "compound node" % (depth, nrule, nbound, nnear, nver))
     with common.Lock():
         res = common.build_props("Props/C09.v")
         run.add_build(res, "make -C coq Props/C09.vo (coqc 8.16.1, full .vo) + Print Assumptions per theorem")
